@@ -71,6 +71,8 @@ pub struct Stats {
     pub per_depth: Vec<u64>,
     /// schx harnesses: highest preemption bound explored completely (-1: none).
     pub bound_completed: Option<i64>,
+    /// schx harnesses: schedules cut off at the point limit, not judged.
+    pub too_long: u64,
 }
 
 pub struct ExecResult {
